@@ -360,4 +360,134 @@ theorem reach_good (init : St) (h2 : Inv2 init) (programs : List (List Op)) (how
   | init => exact good_init init h2 programs hown
   | step hr1 hen hs ih => exact ih.step ⟨_, initSys_wf _ _, hown, hr1⟩ hen hs
 
+/-! ## No stuck state, at quiescence up to ping-pong -/
+
+theorem no_stuck_pp_aux (init : St) (h2 : Inv2 init) (programs : List (List Op)) (hown : Owned (initSys init programs)) :
+    ∀ (n : Nat) (s : Sys St Op), Reach subject (initSys init programs) s → QuiescentPP subject s →
+      ∀ (u : Nat) (th : Th Op) (c : Nat) (op : Op), s.ths[u]? = some th → th.st = .parked c → th.ops[th.pc]? = some op →
+        (s.parked.takeWhile (fun q => q.1 != u)).length ≤ n → parks s.subj op th.cancelled = false → False := by
+  intro n
+  induction n with
+  | zero =>
+    intro s hr hq u th c op hth hst hop hn hready
+    exact aux s hr hq u th c op hth hst hop hready (fun s' hr' hq' th' hth' hst' hop' hlt hready' => by omega)
+  | succ n ih =>
+    intro s hr hq u th c op hth hst hop hn hready
+    exact aux s hr hq u th c op hth hst hop hready
+      (fun s' hr' hq' th' hth' hst' hop' hlt hready' => ih s' hr' hq' u th' c op hth' hst' hop' (by omega) hready')
+where
+  /-- one round: either an immediate contradiction, or a successor state in which the thread has
+      moved up in its condition's queue -/
+  aux (s : Sys St Op) (hr : Reach subject (initSys init programs) s) (hq : QuiescentPP subject s)
+      (u : Nat) (th : Th Op) (c : Nat) (op : Op) (hth : s.ths[u]? = some th) (hst : th.st = .parked c)
+      (hop : th.ops[th.pc]? = some op) (hready : parks s.subj op th.cancelled = false)
+      (next : ∀ (s' : Sys St Op), Reach subject (initSys init programs) s' → QuiescentPP subject s' →
+        ∀ th', s'.ths[u]? = some th' → th'.st = .parked c → th'.ops[th'.pc]? = some op →
+          (s'.parked.takeWhile (fun q => q.1 != u)).length < (s.parked.takeWhile (fun q => q.1 != u)).length →
+          parks s'.subj op th'.cancelled = false → False) : False := by
+    have g := reach_good init h2 programs hown hr
+    obtain ⟨v, thv, hthv, hw | hpend⟩ := g.live u th c op hth hst hop hready
+    · obtain ⟨hwk, ⟨opv, hopv, hcv⟩, _⟩ := hw
+      have hen : Act.resume v ∈ enabled s false := mem_enabled_resume.2 ⟨thv, hthv, hwk⟩
+      obtain ⟨t, s', obs, thp, c', hat, hs, hsubj, hthp, hstp⟩ := hq s .refl _ hen rfl
+      cases hat
+      obtain ⟨thv', opv', hthv', _, hopv', r⟩ := step_resume_rel g.wf (enabled_false_sub hen) hs
+      rw [hthv] at hthv'; cases hthv'
+      rw [hopv] at hopv'; cases hopv'
+      have hfin := (r.parked_iff hthp c').2 hstp
+      rw [subject_resume, SegR.out_fin, FinR.out_park] at hfin
+      have hc' := ((resumeR_park_iff _ _ _ _).1 hfin).2
+      rw [hcv] at hc'; cases hc'
+      obtain ⟨heq, _⟩ := resumeR_park_shape hfin
+      have ho : subject.resume s.subj v opv thv.cancelled = { st := s.subj, sigs := [.signal c], fin := .park c } := by
+        rw [subject_resume, heq]; rfl
+      obtain ⟨_, hparked'⟩ := repark_parked hthv hopv ho hs
+      have huv : u ≠ v := by
+        intro e; subst e; rw [hth] at hthv; cases hthv; rw [hst] at hwk; cases hwk
+      have hmem : (u, c) ∈ s.parked := (g.wf.parked_iff u c).2 ⟨th, hth, hst⟩
+      have hwf' := step_wf g.wf (enabled_false_sub hen) hs
+      have hreach' : Reach subject (initSys init programs) s' := .step hr (enabled_false_sub hen) hs
+      have hint : ReachInt subject s s' := .step .refl hen rfl hs
+      cases hf : s.parked.find? (fun p => p.2 == c) with
+      | none =>
+        have := List.find?_eq_none.1 hf _ hmem
+        simp at this
+      | some p =>
+        rw [hf] at hparked'
+        simp only at hparked'
+        have hp2 : p.2 = c := by simpa using List.find?_some hf
+        obtain ⟨thu', hthu', hwake⟩ := r.other u th huv hth
+        by_cases hpu : p.1 = u
+        · -- the signal woke `u`: it is ready, so its resumption would not park again
+          have hnot : ∀ x, (u, x) ∉ s'.parked := by
+            intro x hx
+            rw [hparked', List.mem_append, List.mem_filter] at hx
+            rcases hx with ⟨_, hx⟩ | hx
+            · simp [hpu] at hx
+            · simp at hx; exact huv hx.1
+          have hwoke : thu' = th.wake := by
+            rcases hwake with h | ⟨_, h⟩
+            · exfalso; subst h
+              exact hnot c ((hwf'.parked_iff u c).2 ⟨thu', hthu', hst⟩)
+            · exact h
+          subst hwoke
+          have hen2 : Act.resume u ∈ enabled s' false := mem_enabled_resume.2 ⟨_, hthu', rfl⟩
+          obtain ⟨t2, s2, obs2, thp2, c2, hat2, hs2, _, hthp2, hstp2⟩ := hq s' hint _ hen2 rfl
+          cases hat2
+          obtain ⟨thx, opx, hthx, _, hopx, r2⟩ := step_resume_rel hwf' (enabled_false_sub hen2) hs2
+          rw [hthu'] at hthx; cases hthx
+          have : (Th.wake th).ops[(Th.wake th).pc]? = some op := hop
+          rw [this] at hopx; cases hopx
+          have hfin2 := (r2.parked_iff hthp2 c2).2 hstp2
+          rw [subject_resume, SegR.out_fin, FinR.out_park] at hfin2
+          have hp := ((resumeR_park_iff _ _ _ _).1 hfin2).1
+          rw [hsubj] at hp
+          have : (Th.wake th).cancelled = th.cancelled := rfl
+          rw [this, hready] at hp; cases hp
+        · -- the signal woke somebody standing before `u`: `u` has moved up
+          have hmem' : (u, c) ∈ s'.parked := by
+            rw [hparked', List.mem_append, List.mem_filter]
+            left; exact ⟨hmem, by simp; exact fun h => hpu h.symm⟩
+          obtain ⟨th'', hth'', hst''⟩ := (hwf'.parked_iff u c).1 hmem'
+          have hsame : s.ths[u]? = some th'' := r.parked_inv huv hth'' hst''
+          rw [hth] at hsame; cases hsame
+          refine next s' hreach' (hq.step hint) th hth'' hst hop ?_ (by rw [hsubj]; exact hready)
+          rw [hparked']
+          have hex : ∃ x ∈ s.parked.filter (fun q => q.1 != p.1), (fun q : Nat × Nat => q.1 != u) x = false :=
+            ⟨(u, c), List.mem_filter.2 ⟨hmem, by simp; exact fun h => hpu h.symm⟩, by simp⟩
+          rw [takeWhile_append_left _ _ _ hex, takeWhile_filter_comm]
+          · refine length_filter_lt _ _ p (first_before g.wf.once hf hmem hpu) (by simp)
+          · intro x _ hx
+            have : x.1 = u := by simpa using hx
+            simp [this]; exact fun h => hpu h.symm
+    · -- a helper for `c` at its gate: `fire` is enabled, and it is not a re-parking resumption
+      have hen : Act.fire v ∈ enabled s false := mem_enabled_fire.2 ⟨thv, hthv, hpend.hasGate⟩
+      obtain ⟨t, _, _, _, _, hat, _⟩ := hq s .refl _ hen rfl
+      cases hat
+
+/-- at quiescence up to ping-pong no goroutine is parked whose loop test would let it go -/
+theorem no_stuck_pp (init : St) (h2 : Inv2 init) (programs : List (List Op)) (hown : Owned (initSys init programs))
+    {s : Sys St Op} (hr : Reach subject (initSys init programs) s) (hq : QuiescentPP subject s)
+    {u : Nat} {th : Th Op} {c : Nat} {op : Op} (hth : s.ths[u]? = some th) (hst : th.st = .parked c)
+    (hop : th.ops[th.pc]? = some op) : parks s.subj op th.cancelled = true := by
+  cases h : parks s.subj op th.cancelled with
+  | true => rfl
+  | false => exact (no_stuck_pp_aux init h2 programs hown _ s hr hq u th c op hth hst hop (Nat.le_refl _) h).elim
+
+/-- a woken goroutine at such a state parks again when resumed: its loop test says "park" -/
+theorem woken_pp_parks (init : St) (h2 : Inv2 init) (programs : List (List Op)) (hown : Owned (initSys init programs))
+    {s : Sys St Op} (hr : Reach subject (initSys init programs) s) (hq : QuiescentPP subject s)
+    {u : Nat} {th : Th Op} {op : Op} (hth : s.ths[u]? = some th) (hst : th.st = .woken)
+    (hop : th.ops[th.pc]? = some op) : parks s.subj op th.cancelled = true := by
+  have g := reach_good init h2 programs hown hr
+  have hen : Act.resume u ∈ enabled s false := mem_enabled_resume.2 ⟨th, hth, hst⟩
+  obtain ⟨t, s', obs, thp, c', hat, hs, _, hthp, hstp⟩ := hq s .refl _ hen rfl
+  cases hat
+  obtain ⟨thx, opx, hthx, _, hopx, r⟩ := step_resume_rel g.wf (enabled_false_sub hen) hs
+  rw [hth] at hthx; cases hthx
+  rw [hop] at hopx; cases hopx
+  have hfin := (r.parked_iff hthp c').2 hstp
+  rw [subject_resume, SegR.out_fin, FinR.out_park] at hfin
+  exact ((resumeR_park_iff _ _ _ _).1 hfin).1
+
 end FunModel.Deque
